@@ -1,6 +1,7 @@
 package seq
 
 import (
+	"bytes"
 	"encoding/json"
 	"fmt"
 	"os"
@@ -283,6 +284,21 @@ func (w *World) buildWorkload() {
 	for k := 0; k < p.Items; k++ {
 		shape := p.Shapes[r.Intn(len(p.Shapes))]
 		it := w.makeItem(1000+k, shape)
+		if shape == 2 && lastPre != nil && r.Chance(1, 4) {
+			// the same entry (same TBS, same issuer key) in another pre_certificate
+			// encoding: other signature bits. It must deduplicate like a resubmission.
+			e := *lastPre.Entry
+			pre := bytes.Clone(e.PreCertificate)
+			pre[len(pre)-1] ^= 1
+			e.PreCertificate = pre
+			it.Entry = &e
+			it.Key = lastPre.Key
+			it.wrapperOf = lastPre
+			it.ID = k
+			w.addItem(it)
+			w.sim.Probe("workload.precert-rewrapped")
+			continue
+		}
 		if shape == 2 {
 			if lastPre != nil && r.Chance(1, 3) {
 				// the same TBS under another issuer key: a distinct entry
@@ -308,6 +324,11 @@ func (w *World) addItem(it *Item) {
 	it.ID = len(w.items)
 	w.items = append(w.items, it)
 	if prev, ok := w.orc.itemsByKey[it.Key]; ok && prev != it {
+		if it.wrapperOf != nil && (prev == it.wrapperOf || prev.wrapperOf == it.wrapperOf) {
+			first := it.wrapperOf
+			first.wrappers = append(first.wrappers, it.Entry.PreCertificate)
+			return // the group is known under its first item
+		}
 		panic(fmt.Sprintf("workload items %d and %d collide", prev.ID, it.ID))
 	}
 	w.orc.itemsByKey[it.Key] = it
